@@ -468,7 +468,7 @@ def replay(res, path):
     open(os.path.join(d, "trig.h"), "w").write(TRIG_C)
     open(os.path.join(d, "trig.hpp"), "w").write(TRIG_CPP)
     for v in data.get("violations", []):
-        first = v["detail"].get("first", {})
+        first = v["detail"].get("first") or {"cmd": v["detail"].get("replayed")}
         cmd = first.get("cmd") or first.get("absent_at") or first.get("default")
         if not cmd:
             continue
